@@ -2,7 +2,11 @@
 From ChiaV.Base Require Import Bytes.
 From ChiaV.Clvm Require Import Sexp Ints.
 From ChiaV.Gen Require Import Builder.
-From ChiaV.Bundle Require Import SolutionGen Interned Builder BuilderExec InternedProofs BuilderProofs BuilderTotal BuilderRefuted.
+From ChiaV.Clvm Require Import TreeHash.
+From ChiaV.Gen Require Import Opcodes.
+From ChiaV.Cond Require Import Model Declarative.
+From ChiaV.Bundle Require Import SolutionGen Interned SpendBundle BlockPath Builder BuilderExec InternedProofs BuilderProofs BuilderTotal BuilderRefuted AgreeProofs OrderProofs OrderFullProofs BuilderConsensus.
+From Coq Require Import Permutation.
 Open Scope N_scope.
 From ChiaV.Props Require Import C10.
 Check C10_wrapper_vbytes :
@@ -139,3 +143,61 @@ Check C10_compressed_initial_estimate_refuted :
   forall m, c_cost xsig xser (real_cfg m) (c_init xsig xsig_one xser x_init) = Some 20 /\
             exists g s, c_finalize xsig xser x_size x_finish x_output (real_cfg m) (c_init xsig xsig_one xser x_init) = CFOk xsig g s 60020.
 Print Assumptions C10_compressed_initial_estimate_refuted.
+Check C10_interned_consensus_cost :
+  forall (Sig : Type) (sig_one : Sig) (sig_mul : Sig -> Sig -> Sig)
+    valid_key (H : bytes -> bytes) K run sig_ok cpb maxc fl gen_args,
+  (forall x args budget,
+     run (Pair (Atom [x01]) x) args budget = if budget <? 20 then Err CostExceeded else Ok (20, x)) ->
+  (forall p s, (exists c r, forall b, run p s b = (if b <? c then Err CostExceeded else Ok (c, r))) \/
+               (forall b, exists e, run p s b = Err e)) ->
+  (forall l l', Permutation l l' -> sig_ok l = sig_ok l') ->
+  bf_interned fl = true ->
+  forall h st rs,
+  maxc + I_MIN_COST_THRESHOLD < U64 ->
+  I_INITIAL_BLOCK_COST + WRAPPER_VBYTES * cpb <= maxc ->
+  run_hist (i_step Sig sig_one sig_mul (checked_cfg cpb maxc)) (i_init Sig sig_one) h = (st, rs) ->
+  ~ In RPanic rs ->
+  let acc := accepted h rs in
+  let S := all_spends Sig acc in
+  Forall (good_spend H) S -> N.of_nat (length S) <= MAX_SPENDS_PER_BLOCK -> Forall (truthful Sig H run fl) acc ->
+  exists gen total,
+    i_finalize Sig (checked_cfg cpb maxc) st = IFOk Sig gen (i_sigs Sig sig_one sig_mul acc sig_one) total /\
+    build_generator S = Some gen /\
+    forall program max_cost, ser gen = Some program ->
+      match mempool_path valid_key H K run sig_ok cpb fl S max_cost,
+            run_block_generator2 valid_key H K run sig_ok cpb fl gen_args program (nlen program) (max_cost + 20) with
+      | Ok m, Ok b => agree_full 20 b m /\ b_cost (fst (fst b)) = total
+      | Err _, Err _ => True
+      | _, _ => False
+      end.
+Print Assumptions C10_interned_consensus_cost.
+Check C10_interned_consensus_accept :
+  forall valid_key (H : bytes -> bytes) K run sig_ok cpb fl gen_args,
+  (forall x args budget,
+     run (Pair (Atom [x01]) x) args budget = if budget <? 20 then Err CostExceeded else Ok (20, x)) ->
+  (forall p s, (exists c r, forall b, run p s b = (if b <? c then Err CostExceeded else Ok (c, r))) \/
+               (forall b, exists e, run p s b = Err e)) ->
+  (forall l l', Permutation l l' -> sig_ok l = sig_ok l') ->
+  bf_interned fl = true ->
+  forall S gen program max_cost,
+  f_dont_validate (bf_cond fl) = true ->
+  Forall (good_spend H) S -> N.of_nat (length S) <= MAX_SPENDS_PER_BLOCK ->
+  build_generator S = Some gen -> ser gen = Some program ->
+  ((exists b, run_block_generator2 valid_key H K run sig_ok cpb fl gen_args program (nlen program) (max_cost + 20) = Ok b) <->
+   interned_vbytes gen * cpb <= max_cost /\
+   (f_limit_spends (bf_cond fl) = true -> N.of_nat (length S) <= MAX_SPENDS_PER_BLOCK) /\
+   exists LL, Forall2 (spend_data H run fl) S LL /\
+              IRules valid_key H K (bf_cond fl) LL (max_cost - interned_vbytes gen * cpb)).
+Print Assumptions C10_interned_consensus_accept.
+Check C10_truthful_is_mempool_cost :
+  forall valid_key (H : bytes -> bytes) K run fl,
+  (forall p s, (exists c r, forall b, run p s b = (if b <? c then Err CostExceeded else Ok (c, r))) \/
+               (forall b, exists e, run p s b = Err e)) ->
+  forall L base max_cost r,
+  rsb_core valid_key H K run fl base L max_cost = Ok r ->
+  exists LL, Forall2 (spend_data H run fl) L LL /\
+             b_cost (fst (fst r)) = base + (costs LL + total_cost (bf_cond fl) (parsed LL)).
+Print Assumptions C10_truthful_is_mempool_cost.
+Check C10_truthful_nonvacuous :
+  truthful xsig nv_H quote_run nv_fl nv_attempt.
+Print Assumptions C10_truthful_nonvacuous.
